@@ -2,7 +2,7 @@
 # takemut.sh Cxx : verify the three seeded changes of /tmp/m/Cxx-out independently and keep the valid ones as seeded/Cxx-n
 ID=$1; WT=/tmp/m/$ID
 cd $WT && git checkout -q -- . || exit 1
-for n in 1 2 3; do
+for n in ${2:-1 2 3}; do
   D=/tmp/m/$ID-out/$n; [ -f $D/patch.diff ] || continue
   echo "=== $ID-$n"
   (cd $D && PYTHONPATH=$WT /venv/bin/python demo.py >/dev/null 2>&1); c0=$?
